@@ -11,14 +11,28 @@ def parsePath (j : Json) : R Path := do
   pure { dir := ← getStr j "dir", stem := ← getStr j "stem", suffix := ← getStr j "suffix" }
 
 def parseCfg (j : Json) : R Cfg := do
-  match ← asList asInt j with
-  | [a, b, c] => pure { spotsize := a, speed := b, scantime := c }
-  | _ => throw "config: three tokens expected"
+  match ← asArr j with
+  | [k, a, b, c] =>
+    if (← asStr k) != "raster" then throw "config: raster expected"
+    pure (.raster (← asInt a) (← asInt b) (← asInt c))
+  | [k, x, y] =>
+    if (← asStr k) != "spot" then throw "config: spot expected"
+    pure (.spot (← asInt x) (← asInt y))
+  | _ => throw "config: [\"raster\", s, v, t] or [\"spot\", x, y] expected"
+
+def parseSpot (j : Json) : R Spot := do
+  match j with
+  | .arr #[x, y] => pure (.two (← asInt x) (← asInt y))
+  | _ => pure (.one (← asInt j))
 
 def parseParams (j : Json) : R Params := do
-  match ← asList (asOpt asInt) j with
-  | [a, b, c] => pure { spotsize := a, speed := b, scantime := c }
-  | _ => throw "params: three optional tokens expected"
+  match ← asArr j with
+  | [a, b, c] => pure { spotsize := ← asOpt parseSpot a, speed := ← asOpt asInt b, scantime := ← asOpt asInt c }
+  | _ => throw "params: three optional entries expected"
+
+def jCfg : Cfg → Json
+  | .raster a b c => .arr #[jStr "raster", jInt a, jInt b, jInt c]
+  | .spot x y => .arr #[jStr "spot", jInt x, jInt y]
 
 /-- per element: name and row-major tokens -/
 def parseFields (h w : Nat) (j : Json) : R (List (String × Array Tok)) := do
@@ -39,7 +53,7 @@ structure InputX where
   /-- the library filter applied to every field of this input (only for the filter command) -/
   filtered : Option (List (String × Array Tok))
 
-def parseInput (defaults : Cfg) (j : Json) : R InputX := do
+def parseInput (defaults : Tok × Tok × Tok) (j : Json) : R InputX := do
   let path ← fld j "path" >>= parsePath
   let present ← getBool j "exists"
   let h ← getNat j "h"
@@ -50,7 +64,7 @@ def parseInput (defaults : Cfg) (j : Json) : R InputX := do
     | some c => pure c
     | none => do
       let p ← fld j "params" >>= parseParams
-      pure (configOf defaults p)
+      pure (configOf defaults.1 defaults.2.1 defaults.2.2 p)
   let filtered ← fld j "filtered" >>= asOpt (parseFields h w)
   pure { input := { path := path, present := present,
                     laser := { elements := fs.map (·.1), data := { h := h, w := w, get := pxOf w fs }, config := config } },
@@ -73,7 +87,7 @@ def jFile (f : File) : Json :=
     jObj [("path", jPath f.path), ("kind", jStr "npz"), ("elements", jList jStr l.elements),
           ("shape", jList jNat [l.data.h, l.data.w]),
           ("data", jList (fun e => jGrid (l.field e)) l.elements),
-          ("config", jList jInt [l.config.spotsize, l.config.speed, l.config.scantime])]
+          ("config", jCfg l.config)]
   | .csv g =>
     jObj [("path", jPath f.path), ("kind", jStr "csv"), ("shape", jList jNat [g.h, g.w]), ("data", jGrid g)]
   | .vtk => jObj [("path", jPath f.path), ("kind", jStr "vtk")]
@@ -84,7 +98,9 @@ def jResult (r : Result) : Json :=
 def handle (op : String) (req : Json) : R Json := do
   match op with
   | "c20.run" =>
-    let defaults ← fld req "defaults" >>= parseCfg
+    let defaults ← match ← getList asInt req "defaults" with
+      | [a, b, c] => pure (a, b, c)
+      | _ => throw "defaults: three tokens expected"
     let xs ← getList (parseInput defaults) req "inputs"
     let format ← getStr req "format"
     let output ← fld req "output" >>= asOpt parsePath
